@@ -56,6 +56,8 @@ class {name}(Logic):
 
 W3 = [('a', 3), ('b', 3), ('c', 3)]
 COMB = [
+    # a local variable that carries the name of a port of the block (the transpiler maps it onto the port: it must not be declared a second time)
+    ('HvShadowOut', W3, 3, ['r = xa + xb', 'self.r.put(r & 7)']),
     ('HvSubRight', W3, 6, ['self.r.put(xa + 16 - ((xb | 4) - (xc & 3)))']),
     ('HvSubLeft', W3, 6, ['self.r.put((xa + 16 - (xb | 4)) - (xc & 3))']),
     ('HvShrRight', W3, 4, ['self.r.put((xa | 8) >> (xb >> (xc & 1)))']),
